@@ -69,6 +69,22 @@ pub fn gen_script(rng: &mut Rng, steps: usize) -> Sx {
         ops.push(list(vec![atom(*rng.pick(&["I", "I", "D", "U"])), num(ua), num(ub)]));
         ops.push(list(vec![atom(*rng.pick(&["I", "D"])), num(ia), num(if rng.chance(1, 2) { ia } else { nb })]));
     }
+    // one script in six combines two number literals that only a coarse identity confuses
+    if rng.chance(1, 6) {
+        let base = atoms.len();
+        let pair = 2 * rng.below(NF_LITS.len() / 2);
+        for k in 0..2 {
+            atoms.push(list(vec![atom("nf"), st(NF_LITS[pair + k])]));
+            ops.push(list(vec![atom("A"), num(base + k)]));
+        }
+        let (ia, ib) = (ops.len() - 2, ops.len() - 1);
+        for o in ["U", "I", "D"] {
+            ops.push(list(vec![atom(o), num(ia), num(ib)]));
+        }
+        ops.push(list(vec![atom("C"), num(ia)]));
+        let na = ops.len() - 1;
+        ops.push(list(vec![atom(*rng.pick(&["U", "I", "D"])), num(na), num(ib)]));
+    }
     for _ in 0..steps {
         let n = ops.len();
         let pickidx = |rng: &mut Rng| if rng.chance(1, 2) { n - 1 - rng.below(n.min(4)) } else { rng.below(n) };
